@@ -1,19 +1,29 @@
 (* C17/Harness.v — comparison of the model with what the Go harness recorded from the real
    batch processor.  Imports only Model.v (so the correspondence still runs when a proof breaks). *)
-From Verif Require Export Common.Base C17.Model.
+From Verif Require Export Common.Base C17.Model C17.Bounded.
 From Coq Require String.
 
 (* ---- script of a processor run (single producer) ------------------------------------------------
    SConsume md p : one Consume call with client metadata md; the shard processes the item
                    before the next script step (per shard this is the only possible order).
    STimer        : every live shard's timer fires once (the harness waits for the flush). *)
-Inductive sop (P : Type) := SConsume (md : metadata) (p : P) | STimer.
+Inductive sop (P : Type) := SConsume (md : metadata) (p : P) | STimer | SShutdown.
 Arguments SConsume {P}.
 Arguments STimer {P}.
+Arguments SShutdown {P}.
+
+(* script of a run with blocked producers (bounded channel): BoC = a Consume call (returns or blocks),
+   BoR i / BoS i = shard i receives once / notices the shutdown, BoCheck = observe (calls returned, producers blocked) *)
+Inductive bop (P : Type) := BoC (md : metadata) (p : P) | BoR (i : N) | BoS (i : N) | BoCheck.
+Arguments BoC {P}.
+Arguments BoR {P}.
+Arguments BoS {P}.
+Arguments BoCheck {P}.
 
 (* observation of a run: the class of each Consume result, and for every export-context value tuple
    (in creation order of the shards; shards that exported nothing do not show) its requests in order *)
 Definition run_obs (P : Type) := (list N * list (list (list N) * list P))%type.
+Definition bobs (P : Type) := (list (N * N) * run_obs P)%type.
 
 (* wire form of a configuration: every number is an [N] (the case terms are printed inside one
    [( ... )%N]); the timeout is (magnitude, negative?) in logical units *)
@@ -27,6 +37,8 @@ Inductive vcase :=
 | CSplit4 (size : N) (src d k : payload4 N)
 | CRun3 (sig : N) (c : hcfg) (script : list (sop (payload3 N))) (obs : run_obs (payload3 N))
 | CRun4 (c : hcfg) (script : list (sop (payload4 N))) (obs : run_obs (payload4 N))
+| CBounded3 (sig : N) (c : hcfg) (cap : N) (script : list (bop (payload3 N))) (obs : bobs (payload3 N))
+| CBounded4 (c : hcfg) (cap : N) (script : list (bop (payload4 N))) (obs : bobs (payload4 N))
 | CValidate (c : hcfg) (obs : N).
 
 (* ---- equality on payloads ---------------------------------------------------------------------- *)
@@ -64,6 +76,7 @@ Section Run.
         let st1 := bp_step count split c st (LConsume 0 md p) in
         (map (sh_recv count split c 0) (fst st1), snd st1)
     | STimer => (map (fun s => sh_timer split c (s_deadline s) s) (fst st), snd st)   (* time advances to each deadline *)
+    | SShutdown => (map (sh_seen count split c 0) (fst st), snd st)     (* Shutdown returns: every shard has drained *)
     end.
 
   Definition run_script (ops : list (sop (list R))) : run_obs (list R) :=
@@ -72,6 +85,24 @@ Section Run.
     (snd st,
      map (fun s => (s_md s, map snd (s_out s)))
          (filter (fun s => negb (Nat.eqb (length (s_out s)) 0)) shards)).
+
+  Definition shards_obs (shards : bp (R:=R)) : list (list (list N) * list (list R)) :=
+    map (fun s => (s_md s, map snd (s_out s)))
+        (filter (fun s => negb (Nat.eqb (length (s_out s)) 0)) shards).
+
+  (* bounded channel of capacity cap *)
+  Definition bscript_step (cap : nat) (acc : bstate (R:=R) * list (N * N)) (o : bop (list R)) :=
+    let '(b, chk) := acc in
+    match o with
+    | BoC md p => (bstep count split c cap b (BConsume 0 md p), chk)
+    | BoR i => (bstep count split c cap b (BRecv 0 (N.to_nat i)), chk)
+    | BoS i => (bstep count split c cap b (BSeen 0 (N.to_nat i)), chk)
+    | BoCheck => (b, chk ++ [(N.of_nat (length (snd (b_st b))), N.of_nat (length (b_wait b)))])
+    end.
+
+  Definition run_bscript (cap : nat) (ops : list (bop (list R))) : bobs (list R) :=
+    let '(b, chk) := fold_left (bscript_step cap) ops (b_init c 0, []) in
+    (chk, (snd (b_st b), shards_obs (fst (b_st b)))).
 End Run.
 
 (* the groups are compared as a set keyed by the tuple (the order in which shards first export is a
@@ -91,8 +122,15 @@ Definition model_out (v : vcase) : vcase :=
   | CSplit4 size src _ _ => let '(d, k) := split_metrics (N.to_nat size) src in CSplit4 size src d k
   | CRun3 sig c script _ => CRun3 sig c script (run_script (@count3 N) (split3_of sig) (cfg_of c) script)
   | CRun4 c script _ => CRun4 c script (run_script (@count4 N) (@split_metrics N) (cfg_of c) script)
+  | CBounded3 sig c cap script _ =>
+      CBounded3 sig c cap script (run_bscript (@count3 N) (split3_of sig) (cfg_of c) (N.to_nat cap) script)
+  | CBounded4 c cap script _ =>
+      CBounded4 c cap script (run_bscript (@count4 N) (@split_metrics N) (cfg_of c) (N.to_nat cap) script)
   | CValidate c _ => CValidate c (validate (cfg_of c))
   end.
+
+Definition chk_eqb (a b : list (N * N)) : bool :=
+  list_eqb (fun x y => N.eqb (fst x) (fst y) && N.eqb (snd x) (snd y)) a b.
 
 Definition check_case (v : vcase) : bool :=
   match v, model_out v with
@@ -100,6 +138,8 @@ Definition check_case (v : vcase) : bool :=
   | CSplit4 _ _ d k, CSplit4 _ _ d' k' => payload4_eqb d d' && payload4_eqb k k'
   | CRun3 _ _ _ o, CRun3 _ _ _ o' => obs_eqb payload3_eqb o o'
   | CRun4 _ _ o, CRun4 _ _ o' => obs_eqb payload4_eqb o o'
+  | CBounded3 _ _ _ _ o, CBounded3 _ _ _ _ o' => chk_eqb (fst o) (fst o') && obs_eqb payload3_eqb (snd o) (snd o')
+  | CBounded4 _ _ _ o, CBounded4 _ _ _ o' => chk_eqb (fst o) (fst o') && obs_eqb payload4_eqb (snd o) (snd o')
   | CValidate _ o, CValidate _ o' => N.eqb o o'
   | _, _ => false
   end.
